@@ -322,9 +322,24 @@ def gen_case(rng, tier):
 
     def remember(name, contours, comps, anchors):
         glyphs[name] = dict(pats=[[p[2] is not None for p in c] for c in contours], n=[len(c) for c in contours],
+                            opens=[bool(c) and c[0][2] == "move" for c in contours],
                             curvedc=[_is_curved_contour(c) for c in contours], comps=[list(k) for k in comps],
                             anchors=len(anchors))
         order.append(name)
+
+    def track_reverse(g, i, twice=False):
+        """keep the on/off-curve pattern of contour i in step with a reversal"""
+        pat = g["pats"][i]
+        if not pat:
+            return
+        if g["opens"][i]:
+            p = list(pat)
+            while p and not p[-1]:
+                p.pop()             # the reversing pen drops the trailing off-curves of an (invalid) open contour
+            g["pats"][i] = p if twice else p[::-1]
+            g["n"][i] = len(p)
+        elif not twice:
+            g["pats"][i] = [pat[0]] + pat[:0:-1]   # closed contours keep their first point
 
     for gi in range(nbase):
         name = "g%d" % gi
@@ -462,9 +477,7 @@ def gen_case(rng, tier):
             elif what == "cReverse":
                 i = rng.randrange(nc)
                 ops.append(["cReverse", name, i])
-                pat = g["pats"][i]
-                if pat:
-                    g["pats"][i] = [pat[0]] + pat[:0:-1]
+                track_reverse(g, i)
             elif what == "cSetClockwise":
                 i = rng.randrange(nc)
                 ops.append(["cSetClockwise", name, i, rng.random() < 0.5])
@@ -627,10 +640,8 @@ def gen_case(rng, tier):
                 ops.append(o)
         ops.append(mut)
         # keep the on/off pattern in step (reverse and setStartPoint move points around)
-        if mut[0] == "cReverse":
-            pat = g["pats"][mut[2]]
-            if pat:
-                g["pats"][mut[2]] = [pat[0]] + pat[:0:-1]   # closed contours keep their first point
+        if mut[0] in ("cReverse", "cReverse2"):
+            track_reverse(g, mut[2], twice=mut[0] == "cReverse2")
         elif mut[0] == "cSetStart":
             pat = g["pats"][mut[2]]
             n = g["n"][mut[2]]
